@@ -205,24 +205,11 @@ impl RegKeys {
 
 /// Serialisation for the compiler model: keeps the repetition operator kinds; leaves carry the
 /// registry id. `E | L id | C n .. | A n .. | Q x | S x | P x | X n x | T n x | B m n x`.
-pub fn ser_cast(ast: &Ast, reg: &mut RegKeys, out: &mut String) -> Option<()> {
+pub fn ser_cast_with(ast: &Ast, leaf: &mut dyn FnMut(&Ast) -> usize, out: &mut String) -> Option<()> {
     match ast {
         Ast::Empty(_) => out.push_str(" E"),
-        Ast::Literal(l) => {
-            let id = reg.id(format!("lit:{}:{:?}", l.c as u32, l.kind));
-            let _ = write!(out, " L {}", id);
-        }
-        Ast::Dot(_) => {
-            let id = reg.id("dot".to_string());
-            let _ = write!(out, " L {}", id);
-        }
-        Ast::ClassUnicode(_) | Ast::ClassPerl(_) | Ast::ClassBracketed(_) => {
-            let kind = match ast {
-                Ast::ClassUnicode(_) => "u",
-                Ast::ClassPerl(_) => "p",
-                _ => "b",
-            };
-            let id = reg.id(format!("cls:{}:{}", kind, ast.to_string().escape_default()));
+        Ast::Literal(_) | Ast::Dot(_) | Ast::ClassUnicode(_) | Ast::ClassPerl(_) | Ast::ClassBracketed(_) => {
+            let id = leaf(ast);
             let _ = write!(out, " L {}", id);
         }
         Ast::Repetition(r) => {
@@ -243,24 +230,63 @@ pub fn ser_cast(ast: &Ast, reg: &mut RegKeys, out: &mut String) -> Option<()> {
                     let _ = write!(out, " B {} {}", m, n);
                 }
             }
-            ser_cast(&r.ast, reg, out)?;
+            ser_cast_with(&r.ast, leaf, out)?;
         }
-        Ast::Group(g) => ser_cast(&g.ast, reg, out)?,
+        Ast::Group(g) => ser_cast_with(&g.ast, leaf, out)?,
         Ast::Alternation(a) => {
             let _ = write!(out, " A {}", a.asts.len());
             for x in &a.asts {
-                ser_cast(x, reg, out)?;
+                ser_cast_with(x, leaf, out)?;
             }
         }
         Ast::Concat(c) => {
             let _ = write!(out, " C {}", c.asts.len());
             for x in &c.asts {
-                ser_cast(x, reg, out)?;
+                ser_cast_with(x, leaf, out)?;
             }
         }
         Ast::Flags(_) | Ast::Assertion(_) => return None,
     }
     Some(())
+}
+
+/// The key the registry emulation of the harness files a leaf under (mirrors `ComparableAst::eq`).
+fn reg_key(ast: &Ast) -> String {
+    match ast {
+        Ast::Literal(l) => format!("lit:{}:{:?}", l.c as u32, l.kind),
+        Ast::Dot(_) => "dot".to_string(),
+        Ast::ClassUnicode(_) => format!("cls:u:{}", ast.to_string().escape_default()),
+        Ast::ClassPerl(_) => format!("cls:p:{}", ast.to_string().escape_default()),
+        _ => format!("cls:b:{}", ast.to_string().escape_default()),
+    }
+}
+
+pub fn ser_cast(ast: &Ast, reg: &mut RegKeys, out: &mut String) -> Option<()> {
+    ser_cast_with(ast, &mut |a| reg.id(reg_key(a)), out)
+}
+
+/// The printed, escaped text of a leaf: what `CharacterClass`'s `Display` shows for a registered
+/// class, and a faithful key of its `ComparableAst` equality class (classes are compared by exactly
+/// this text; for a literal the text determines `(char, kind)` and vice versa; `.` is the dot).
+pub fn leaf_text(ast: &Ast) -> String {
+    ast.to_string().escape_default().to_string()
+}
+
+/// All leaf texts of a pattern, in no particular order.
+pub fn collect_leaf_texts(pattern: &str, out: &mut std::collections::BTreeSet<String>) -> Option<()> {
+    let ast = Parser::new().parse(pattern).ok()?;
+    let mut s = String::new();
+    ser_cast_with(&ast, &mut |a| { out.insert(leaf_text(a)); 0 }, &mut s)
+}
+
+/// A pattern for the registry model: leaves carry the position of their text in the sorted table
+/// `keys` (an arbitrary numbering of the equality classes, not the registration order).
+pub fn ser_kpattern(pattern: &str, keys: &[String]) -> Option<String> {
+    let ast = Parser::new().parse(pattern).ok()?;
+    let mut s = String::new();
+    let mut ok = true;
+    ser_cast_with(&ast, &mut |a| match keys.binary_search(&leaf_text(a)) { Ok(i) => i, Err(_) => { ok = false; 0 } }, &mut s)?;
+    if ok { Some(s) } else { None }
 }
 
 pub fn ser_cpattern(pattern: &str, reg: &mut RegKeys) -> Option<String> {
